@@ -4,9 +4,10 @@ canonical text)."""
 import math
 from fractions import Fraction
 
-def snap(x, max_den=10 ** 4):
-    """float -> [n, d]: the closest small rational when the float is (within 1e-9 rel.) one;
-    None when it is not (callers then log an approximation)."""
+def snap(x, max_den=16384):
+    """float -> [n, d]: the closest rational with denominator <= max_den when the float is (within 64 ulp) one;
+    None when it is not (callers then log a 6-decimal approximation).  max_den equals Rat!Limit: every value the
+    specification regards as determined (components within the limit) is representable here."""
     if isinstance(x, bool):
         raise TypeError("bool is not a number here")
     fr = Fraction(x).limit_denominator(max_den)
